@@ -182,7 +182,7 @@ def c10_3(ctx: Ctx):
     ctx.check(bool(before_live), fi, fi.node, "an existing alignment table is used for the split", "existing table is no longer used before the yield")
 
 
-@rule("C10.4", ["C10", "C01", "C04"], "overlap groups grow monotonically; split keeps the larger alignment on an empty head", 6)
+@rule("C10.4", ["C10", "C01", "C04", "C02"], "overlap groups grow monotonically; split keeps the larger alignment on an empty head", 6)
 def c10_4(ctx: Ctx):
     repo = ctx.repo
     fi = repo.func("intervalutils.split_byte_interval")
@@ -210,9 +210,12 @@ def c10_4(ctx: Ctx):
         t = ifs[0].node.test
         bad = []
         for empty in (True, False):
-            for gend in (4,):
+            for gbeg, gend in ((2, 4), (4, 4)):   # a sized group and a group of zero-sized blocks only
                 for bo in (3, 4, 5):
-                    env = {"groups == []": empty, "groups[-1].end": gend, "block.offset": bo, "groups": [] if empty else [1]}
+                    if bo < gbeg:
+                        continue
+                    env = {"groups == []": empty, "groups[-1].end": gend, "groups[-1].begin": gbeg, "block.offset": bo, "block.size": 1, "block_end": bo + 1,
+                           "groups": [] if empty else [1]}
                     try:
                         got = bool(minieval(t, env))
                     except Unknown as exc:
